@@ -4,6 +4,20 @@ claimed / not_applicable partition is always consistent)."""
 import json
 
 CLAIMS = {
+ 'C05': dict(
+   text='PARTIAL (structural obligations only): decides the facts which, with the stdlib contracts (stable list.sort, '
+        'heapq.merge stable in iterable order, min/max return the first extremum), imply a stable sorted permutation '
+        'independent of buffering: the memory/disk decision is evaluated for buffersize None, len<buffersize and '
+        'len==buffersize; all runs are read with the same bound; runs are sorted and merged with the same key function and '
+        'reverse flag, also on passes served from the chunk-file cache (call-site binding, no defaulted parameters); the '
+        'merge dispatch, max/min selection, index() tie-break and keys-only heap items; tuple copies on delivery; '
+        'mergesort sorts and merges by the same key/reverse; Comparable provenance in sorts.py.',
+   ref='DESIGN.md §4 C05',
+   note='does NOT decide that the output is the sorted permutation of the input (value-level) nor re-prove the stdlib '
+        'contracts; every rule is a necessary condition: breaking it changes the output for some buffersize / reverse / '
+        'cache / pass combination',
+   technique='decision-table evaluation of the exhaustion guard over the order atoms, call-site binding of merge '
+             'arguments, sibling agreement of sort and merge keys'),
  'C16': dict(
    text='Static decision of transparency and tee == to: in the seven generator pass-through iterators (tees, progress, '
         'clock, cache) every path through the data loop yields exactly once and yields the row variable itself; wrap() '
